@@ -153,7 +153,29 @@ def _big_inputs(ctx, su, n_random):
     for _ in range(n_random):
         nums.add(ctx.rnd.getrandbits(128))
         nums.add(ctx.rnd.getrandbits(ctx.rnd.randrange(1, 129)))
+    # families of numbers that agree in what a truncated / hashed key would keep (hash(int) is the value mod 2^61 - 1):
+    # all are encoded in one process, the smaller ones first
+    for base in (0, 1, 57, 12345678901234567890, ctx.rnd.getrandbits(60), ctx.rnd.getrandbits(100)):
+        for m in CONGRUENCE_MODULI:
+            for k in (1, 2, 3, 12345, (1 << 60) + 7):
+                v = base + k * m
+                if v < (1 << 128):
+                    nums.add(v)
+                    nums.add(base)
     return sorted(nums)
+
+
+CONGRUENCE_MODULI = ((1 << 61) - 1, 1 << 64, 1 << 32, 1 << 63)
+
+
+def _partners(n, numset):
+    """smaller sampled numbers congruent to n modulo one of the moduli (they were encoded before n)"""
+    out = []
+    for m in CONGRUENCE_MODULI:
+        for x in numset:
+            if x < n and (n - x) % m == 0:
+                out.append(x)
+    return sorted(set(out))[:8]
 
 
 def _int_to_digits(n):
@@ -288,9 +310,10 @@ def run(ctx):
             continue
         c = cases[i - 1]
         if c['kind'] == 'enc':
-            ctx.violation({'kind': 'enc', 'n': c['src']},
-                          'uuid_to_short_str(UUID(int=%d)) gives digits %s which the spec rejects' % (
-                              c['src'], c['out']))
+            before = _partners(c['src'], set(nums))
+            ctx.violation({'kind': 'enc', 'n': c['src'], 'before': before},
+                          'uuid_to_short_str(UUID(int=%d)) gives digits %s which the spec rejects%s' % (
+                              c['src'], c['out'], (' (encoded before it in this process: %s)' % before) if before else ''))
         else:
             ctx.violation({'kind': 'dec', 'str': c['src'], 'fn': c['fn']},
                           '%s(%r) -> %s, rejected by the spec' % (c['fn'], c['src'], c['outc']))
@@ -343,6 +366,8 @@ def replay(ctx, case):
             _unpatch(su)
     if k == 'enc':
         n = int(case['n'])
+        for b in case.get('before', []):
+            _call(su.uuid_to_short_str, real_uuid.UUID(int=int(b)))       # what was encoded before it in the run
         outc, s = _call(su.uuid_to_short_str, real_uuid.UUID(int=n))
         if outc != 'ok':
             return 'raises ' + outc
